@@ -34,6 +34,7 @@ type Explorer struct {
 	Findings   map[string]FindingAt
 	Capped     bool
 	Divergence string
+	Sample     []string // one explored schedule, written out: "thread:operation" per scheduling point
 }
 
 type FindingAt struct {
@@ -100,6 +101,12 @@ func (e *Explorer) Explore(body Setup) {
 			e.MaxSeen = len(res.Points)
 		}
 		e.Outcomes[out.Obs]++
+		if len(fr.prefix) > 0 && (e.Sample == nil || len(res.Points) < len(e.Sample)) || e.Sample == nil {
+			e.Sample = nil
+			for _, p := range res.Points {
+				e.Sample = append(e.Sample, fmt.Sprintf("t%d:%s", p.Enabled[p.Chosen], p.Desc))
+			}
+		}
 		choices := make([]int, len(res.Points))
 		for i, p := range res.Points {
 			choices[i] = p.Chosen
